@@ -5,6 +5,7 @@
 -/
 import FP.Model.FuncTable
 import FP.Ref.N1
+import FP.Model.Eval
 namespace FP.Props.C16
 open FP FP.Model FP.Ref FP.Gen.FuncTable
 
@@ -79,5 +80,44 @@ example : compileCall baseTable "power" 1 = .accepted "impl.Power" := by decide
 example : compileCall baseTable "power" 0 = .arity := by decide
 example : compileCall baseTable "nosuch" 0 = .unresolved := by decide
 example : compileCall (tableFor true) "join" 1 = .accepted "impl.Join" := by decide
+
+/-! ### Compile of a call, in the assembled visitor model (FP.Model.Eval.compile) -/
+
+section Expr
+open FP.Model.Eval
+
+/-- Compile accepts a call EXACTLY when the name is in the function table and the number of written
+    arguments lies within that entry's bounds (the arguments themselves compiling) — whatever the
+    arguments are and wherever the call stands -/
+theorem expr_call_accepted_iff (tbl : List Entry) (n : String) (as : Syntax.Ex) (vr : Bool) (cas : E) (vr' : Bool)
+    (ha : compile tbl as vr = .ok (cas, vr')) :
+    compile tbl (.call n as) vr ≠ .error ↔
+      ∃ ent, lookup tbl n = some ent ∧ ent.min ≤ argCount as ∧ argCount as ≤ ent.max := by
+  simp only [compile]
+  cases hl : lookup tbl n with
+  | none => simp
+  | some ent =>
+    simp only [ha, CRes.bind, Option.some.injEq, exists_eq_left']
+    by_cases h1 : argCount as < ent.min
+    · simp [h1]; try omega
+    · by_cases h2 : argCount as > ent.max
+      · simp [h1, h2]; try omega
+      · simp only [h1, h2, decide_false, Bool.or_self, Bool.false_eq_true, if_false]
+        constructor
+        · intro _; omega
+        · intro _; split <;> (try split) <;> simp
+
+/-- a call whose argument list does not compile does not compile -/
+theorem expr_call_bad_argument (tbl : List Entry) (n : String) (as : Syntax.Ex) (vr : Bool)
+    (ha : compile tbl as vr = .error) : compile tbl (.call n as) vr = .error := by
+  simp only [compile]
+  cases lookup tbl n <;> simp [ha, CRes.bind]
+
+/-- a function the table binds to the placeholder fails when evaluated, with the explicit error -/
+theorem expr_unimplemented_fails (env : Env) (args : E) (input : List FP.Model.Val) :
+    eval env (.fn "unimplemented!" args) input = .err "not-implemented" := by
+  simp [eval]
+
+end Expr
 
 end FP.Props.C16
